@@ -33,18 +33,36 @@ def impl():
     return S, T
 
 
+# degenerate and tricky geometry, each also judged under a fixed set of paints on every run
+FIXED_DS = [
+            "M10,10", "M10,10 M20,20", "M10,10 L20,20", "M5,5 L50,5 L90,5 Z",
+            "M1,1 z", "", "M10,10 L20,10 L20,20 L10,20 Z M10,10 L20,10 L20,20 L10,20 Z", "M10,10 L20,10 L20,20 L10,20 Z M10,10 L10,20 L20,20 L20,10 Z",
+            "M10,10 h0.0001 v30 h-0.0001 z", "M0,0 L10,0 M0,0 L10,10 L0,10 Z", "M10,10 L30,10 L30,30 L10,30 Z M15,15 L25,15 L25,25 L15,25 Z",
+            "m5,5 0,0 0,0", "M10,10 Q20,20 30,10", "M5,5 Z", "M5,5 z M9,9 Z", "M5,5 L5,5", "M8,8 Z M20,20 L30,30",
+            # equal-area contours drawn in opposite directions (a colon, a bowtie): the signed areas cancel
+            "M10,10 L20,10 L20,20 L10,20 Z M30,10 L30,20 L40,20 L40,10 Z", "M10,10 L30,30 L30,10 L10,30 Z",
+            "M5,5 h10 v10 h-10 z M25,5 v10 h10 v-10 z M45,5 h10 v10 h-10 z", "M10,10 L20,10 L20,20 L10,20 Z M12,30 L12,40 L22,40 L22,30 Z", "M10,10 C10,10 10,10 10,10 Z", "M3,3 L3,3 Z L5,5 L5,0 Z"]
+CANON_PAINTS = [{}, {"fill": "red"}, {"fill": "red", "fill-rule": "evenodd"}, {"fill": "none", "stroke": "blue"},
+                {"fill": "none", "stroke": "blue", "stroke-linecap": "round", "stroke-width": "3"}, {"style": "fill:red;stroke-width:0"},
+                {"style": "stroke:red;fill:none;stroke-width:2"}, {"style": "stroke:red", "fill": "#0f0"}]
+
+
+_NS = 'xmlns="http://www.w3.org/2000/svg" viewBox="0 0 40 40"'
+RAW_DOCS = [
+    '<svg %s><g style="stroke:red;stroke-width:3"><path style="fill:none" d="M5,5 L30,30"/></g></svg>' % _NS,
+    '<svg %s><g style="fill:none"><path fill="red" d="M5,5 L30,30 L30,5 Z"/></g></svg>' % _NS,
+    '<svg %s><g style="fill:none"><g><path style="fill:blue" d="M5,5 L30,30 L30,5 Z"/></g></g></svg>' % _NS,
+    '<svg %s><defs><clipPath id="c"><path fill="none" d="M5,5 L30,30 L30,5 Z"/></clipPath></defs><rect x="2" y="2" width="36" height="36" fill="blue" clip-path="url(#c)"/></svg>' % _NS,
+    '<svg %s><defs><clipPath id="c"><rect x="5" y="5" width="20" height="20" opacity="0"/></clipPath></defs><g clip-path="url(#c)"><rect x="2" y="2" width="36" height="36" fill="blue"/><rect x="10" y="10" width="5" height="5" fill="none"/></g></svg>' % _NS,
+    '<svg %s><g fill="none" stroke="none"><path stroke="red" stroke-width="2" d="M5,20 L35,20"/><path d="M5,30 L35,30"/></g></svg>' % _NS,
+]
+
+
 def gen_shape(rng):
     tag = rng.choice(["path", "path", "path", "rect", "circle", "ellipse", "line", "polygon", "polyline"])
     at = {}
     if tag == "path":
-        at["d"] = rng.choice([
-            docgen.rpath_d(rng), docgen.rpath_d(rng, closed=False), "M10,10", "M10,10 M20,20", "M10,10 L20,20", "M5,5 L50,5 L90,5 Z",
-            "M1,1 z", "", "M10,10 L20,10 L20,20 L10,20 Z M10,10 L20,10 L20,20 L10,20 Z", "M10,10 L20,10 L20,20 L10,20 Z M10,10 L10,20 L20,20 L20,10 Z",
-            "M10,10 h0.0001 v30 h-0.0001 z", "M0,0 L10,0 M0,0 L10,10 L0,10 Z", "M10,10 L30,10 L30,30 L10,30 Z M15,15 L25,15 L25,25 L15,25 Z",
-            "m5,5 0,0 0,0", "M10,10 Q20,20 30,10",
-            # equal-area contours drawn in opposite directions (a colon, a bowtie): the signed areas cancel
-            "M10,10 L20,10 L20,20 L10,20 Z M30,10 L30,20 L40,20 L40,10 Z", "M10,10 L30,30 L30,10 L10,30 Z",
-            "M5,5 h10 v10 h-10 z M25,5 v10 h10 v-10 z M45,5 h10 v10 h-10 z", "M10,10 L20,10 L20,20 L10,20 Z M12,30 L12,40 L22,40 L22,30 Z", "M10,10 C10,10 10,10 10,10 Z", "M3,3 L3,3 Z L5,5 L5,0 Z"])
+        at["d"] = rng.choice([docgen.rpath_d(rng), docgen.rpath_d(rng, closed=False)] + FIXED_DS * 2)
     elif tag == "rect":
         at.update(x=docgen.num(rng, 0, 50), y=docgen.num(rng, 0, 50), width=rng.choice(["0", "10", "0.00001", docgen.num(rng, 1, 40)]), height=rng.choice(["0", "10", docgen.num(rng, 1, 40)]))
     elif tag == "circle":
@@ -72,6 +90,8 @@ def gen_shape(rng):
         paint.append(("display", rng.choice(["none", "inline", "block"])))
     if rng.random() < 0.4:
         paint.append(("fill-rule", rng.choice(["evenodd", "evenodd", "nonzero"])))
+    if rng.random() < 0.3:
+        paint.append(("stroke-linecap", rng.choice(["round", "square", "butt"])))
     styled = []
     for k, v in paint:
         if rng.random() < 0.4:
@@ -84,6 +104,35 @@ def gen_shape(rng):
             st += rng.choice([";foo:bar", "; -inkscape-x: 1", ";;", "; bogus", ";opacity:abc", "; stroke-width : 3 "])
         at["style"] = st
     return tag, at
+
+
+def declared(at):
+    """presentation attributes with the style declarations laid over them (independent of the implementation)"""
+    out = {k: v for k, v in at.items() if k != "style"}
+    for decl in at.get("style", "").split(";"):
+        if decl.count(":") == 1:
+            k, v = decl.split(":")
+            out[k.strip()] = v.strip()
+    return out
+
+
+def stroke_law(tag, at):
+    """'any shape with a visible stroke is reported as possibly painting': True when the attributes say the stroke shows and
+    the geometry draws something (more than movetos); None when this evaluator cannot tell"""
+    a = declared(at)
+    try:
+        if a.get("display", "inline") == "none" or a.get("stroke", "none") == "none":
+            return False
+        if float(a.get("stroke-width", "1")) == 0 or float(a.get("opacity", "1")) * float(a.get("stroke-opacity", "1")) == 0:
+            return False
+    except ValueError:
+        return None
+    if tag == "path":
+        letters = [c for c in a.get("d", "") if c.isalpha() and c not in "eE"]
+        return any(c not in "Mm" for c in letters)
+    if tag in ("polygon", "polyline"):
+        return len(a.get("points", "").split()) >= 2
+    return True
 
 
 def wire_attrs(at):
@@ -223,10 +272,15 @@ def search(ctx, disagreements):
     shapes = getattr(ctx, "_shapes", None) or [gen_shape(rng) for _ in range(400)]
     if not ctx.thorough():
         shapes = shapes[:400]
+    shapes = [("path", dict(pa, d=d)) for d in FIXED_DS for pa in CANON_PAINTS] + list(shapes)
     for t, a in shapes:
         o, v, _, _ = run_might_paint(t, a)
         if o != "ok":
             continue
+        if v is False and stroke_law(t, a):
+            ctx.count("judged-stroke-law")
+            found.append({"kind": "prune-law", "input": [t, a], "tag": None, "law": "stroke",
+                          "detail": "the shape has a visible stroke (%s) and draws more than movetos, yet might_paint() is False" % declared(a)})
         if v is False:
             p = painted_somewhere(ctx, doc_of(t, a), rng)
             ctx.count("judged-false")
@@ -248,7 +302,16 @@ def search(ctx, disagreements):
                         tag = "stroked-subpath"
                     found.append({"kind": "prune-law", "input": [t, a], "tag": tag,
                                   "detail": "remove_empty_subpaths() %r -> %r: %s" % (a.get("d"), d2, why)})
-    # document level
+    # document level: fixed raw documents first (group-level style, shapes that only serve as clip geometry)
+    for src in RAW_DOCS:
+        o, out = common.outcome_of(lambda: S.SVG.fromstring(src).remove_unpainted_shapes().tostring())
+        if o != "ok":
+            continue
+        why = same_rendering(ctx, src, out, rng, eps=0.3)
+        ctx.count("judged-raw-doc")
+        if why:
+            tag = "group-style-cascade" if "<g style=" in src else None
+            found.append({"kind": "prune-law", "input": ["doc", src], "tag": tag, "detail": "remove_unpainted_shapes(): " + why})
     n = 60 if ctx.thorough() else 15
     for _ in range(n):
         F = docgen.Features(strokes=True, display=True, degenerate=True, use=False, clips=False, max_depth=2)
@@ -289,6 +352,7 @@ def replay(ctx, payload):
             a2["d"] = d2
             res["remove_empty_subpaths"] = d2
             res["rendering_change"] = same_rendering(ctx, doc_of(t, a), doc_of(t, a2), rng)
-        res["fails"] = bool(p) or bool(res.get("rendering_change"))
+        res["stroke_law_broken"] = bool(v is False and stroke_law(t, a))
+        res["fails"] = bool(p) or bool(res.get("rendering_change")) or res["stroke_law_broken"]
         return res
     return {"fails": bool(ctx.tie_breaks), "no_longer_checks": ctx.tie_breaks}
